@@ -138,7 +138,9 @@ func (a chunkAddr) String() string  { return string(a) }
 
 func (l *chunkListener) Addr() net.Addr { return chunkAddr(l.addr) }
 
-func (l *chunkListener) Serve(handler netpoll.Handler) error { return errors.New("chunk: poll not supported") }
+func (l *chunkListener) Serve(handler netpoll.Handler) error {
+	return errors.New("chunk: poll not supported")
+}
 func (l *chunkListener) ServeData(opened func(net.Conn) error, serve func(req []byte) (res []byte)) error {
 	return errors.New("chunk: poll not supported")
 }
